@@ -296,9 +296,18 @@ func (p *Plugin) out(workerData *pipeline.WorkerData, batch *pipeline.Batch) err
 	outBuf := data.outBuf[:0]
 	encodeBuf := data.encodeBuf[:0]
 
+	// formatting rewrites an event in place and field names point into encodeBuf:
+	// format a copy, the batch is sent again after an error and must not be formatted twice
+	formatted := &pipeline.Event{Root: insaneJSON.Spawn()}
+	defer insaneJSON.Release(formatted.Root)
+
 	batch.ForEach(func(event *pipeline.Event) {
-		encodeBuf = p.formatEvent(encodeBuf, event)
-		outBuf, _ = event.Encode(outBuf)
+		if err := formatted.Root.DecodeString(event.Root.EncodeToString()); err != nil {
+			p.logger.Errorf("can't copy event: %s", err.Error())
+			return
+		}
+		encodeBuf = p.formatEvent(encodeBuf, formatted)
+		outBuf, _ = formatted.Encode(outBuf)
 		outBuf = append(outBuf, byte(0))
 	})
 
